@@ -408,7 +408,13 @@ func (p *Prog) pathMasksD(fn *ssa.Function, preds []Pred, depth int) *pathInfo {
 		}
 		v, _ := stripNot(iff.Cond, true)
 		ph := subjectPhi(Lit{V: v, Pos: true})
-		if ph == nil || ph.Block() == b || pi.sel[ph] != nil || len(ph.Edges) > 4 {
+		if ph == nil || pi.sel[ph] != nil || len(ph.Edges) > 4 {
+			continue
+		}
+		// a block that does nothing but branch on its own phi is bypassed (below); a block that
+		// defines the phi, does other work (calls, loads) and then branches on it gets selector
+		// atoms like a phi branched on in a later block
+		if ph.Block() == b && phiBranchOf(b) != nil {
 			continue
 		}
 		if len(pi.atomPred)+len(ph.Edges) >= 61 {
